@@ -210,6 +210,10 @@ Proof.
     eapply reg_from_trans; [exact R1|].
     eapply reg_from_trans; [apply same_ctl_reg_from, same_ctl_mdepth|apply same_ctl_reg_from, same_ctl_halted].
   - simpl. exact R.
+  - destruct (get k (cos s)) as [c|] eqn:G; simpl; [|exact R].
+    destruct (cstate_eqb (co_st c) Suspended || cstate_eqb (co_st c) Dead) eqn:E; simpl; [|exact R].
+    assert (Dd : mco_destroy k s = (MCO_SUCCESS, set_cos s (del k (cos s)))) by (unfold mco_destroy; rewrite G, E; reflexivity).
+    apply K. eapply mco_destroy_reg_from; eauto.
 Qed.
 
 Lemma run_regok : forall ops s, Inv s -> regok s -> regok (fst (run ops s)).
